@@ -532,7 +532,7 @@ def run(ck: Check):
     rng = ck.rng
     thorough = ck.tier == "thorough"
     ck.rule(
-        "sample pairs from 16 families (samples of > 10 000 observations in sorted / drifting order, Gaussian continuous, heavily tied on 2-10 values, values exactly on exactly-representable bin edges, "
+        "integer-valued samples as float64 / float32 / uint8 / int16 / int64 arrays (dtype independence of the six distances that do not go through NumPy's dtype-dependent auto-binning); sample pairs from 16 families (samples of > 10 000 observations in sorted / drifting order, Gaussian continuous, heavily tied on 2-10 values, values exactly on exactly-representable bin edges, "
         "values on NumPy's computed edges and their 1-ulp neighbours, disjoint / nested supports, both constant (equal / different), one constant, the same multiset replicated with different multiplicities, "
         "unequal sizes 1..60 (300 thorough)), num_bins in {2,3,5,10,17,64}; all 8 distances run through fit/compare; compared with the binary64 run of the "
         "Gallina model (bin counts exactly, distances 1e-9 rel, JS/energy on squares) and with textbook formulas computed in exact rational "
@@ -573,6 +573,36 @@ def run(ck: Check):
             if not ok:
                 ck.violation(dict(clause="formula", distance=name, input="non-constant", family=fam),
                              dict(what=f"{name} on a sample of more than 10 000 observations differs from the value on the auto-binned histograms of the whole samples", n=len(X), m=len(Y), num_bins=nb, order="sorted / drifting", X_head=X[:6], Y_head=Y[:6], value=v, expected=exp))
+    # the same integer-valued samples carried by other array dtypes (every value exactly representable in each):
+    # the distances are functions of the VALUES (a narrow dtype must not be used for internal arithmetic)
+    for k in range(6 if not thorough else 30):
+        nb = rng.choice([2, 5, 10, 17])
+        hi = rng.choice([3, 40, 250])
+        Xi = _np.array([rng.randrange(0, hi) for _ in range(rng.choice([7, 30, 60]))])
+        Yi = _np.array([rng.randrange(hi // 4, hi + hi // 4 + 1) for _ in range(rng.choice([len(Xi), 9, 45]))])
+        Yi = _np.minimum(Yi, 255)
+        base = {}
+        for dt in (_np.float64, _np.float32, _np.uint8, _np.int16, _np.int64):
+            for name, cls in _classes().items():
+                if name in ("JS", "KL"):
+                    continue  # NumPy's bins="auto" rule itself depends on the dtype (integer data: bin width >= 1): an oracle of the property
+                try:
+                    det = cls(num_bins=nb) if name in ("PSI", "Hellinger", "Bhattacharyya", "HI") else cls()
+                    det.fit(X=Xi.astype(dt))
+                    v = float(det.compare(X=Yi.astype(dt))[0].distance)
+                except Exception as e:  # noqa: BLE001
+                    ck.violation(dict(clause="raises", distance=name, dtype=dt.__name__), dict(what="fit/compare raised on integer-valued samples of this dtype", distance=name, dtype=dt.__name__, X=Xi.tolist(), Y=Yi.tolist(), num_bins=nb, error=repr(e)))
+                    continue
+                if dt is _np.float64:
+                    base[name] = v
+                    continue
+                ck.count("dtype_runs")
+                b0 = base.get(name)
+                tol = 1e-9
+                same = (math.isnan(v) and math.isnan(b0)) or (math.isinf(v) and math.isinf(b0) and v == b0) or (not math.isinf(v) and not math.isinf(b0) and abs(v - b0) <= tol * max(1.0, abs(b0)))
+                if b0 is not None and not same:
+                    ck.violation(dict(clause="dtype-independence", distance=name, dtype=dt.__name__), dict(what="the distance of the same integer values differs when the arrays have another dtype", distance=name, dtype=dt.__name__, value=v, as_float64=b0, X=Xi.tolist(), Y=Yi.tolist(), num_bins=nb))
+        ck.case(dict(family="dtypes", n=len(Xi), m=len(Yi), num_bins=nb), nontrivial=True, key=repr(("dtypes", Xi.tolist(), Yi.tolist(), nb)))
     for i in range(ncases):
         fam, X, Y, nb = gen_pair(rng, thorough and i % 10 == 0)
         c = one_case(ck, fam, X, Y, nb)
